@@ -90,11 +90,12 @@ class ModelEngine(Engine):
     expected_probes = ['read_in_other_epoch', 'xml_read', 'json_read', 'dm_read', 'path_read', 'stream_read', 'short_read_stream',
                        'scaled_property', 'symbols_with_gap', 'masses_partly_none', 'one_atom_system', 'length1_array',
                        'rank3_value', 'rewrite_chain', 'elastic_normalised', 'unseeded_epoch', 'string_property', 'error_field',
-                       'noncontiguous_input']
+                       'noncontiguous_input', 'box_read_into_used_object']
     rule = ('Each run is a history of up to 30 operations over a set of up to 10 serialised artifacts: build a value-with-units / '
             'Box / Atoms / System / ElasticConstants in the current epoch from simulator-held physical (SI, dimension) values and '
             'write it (arrays handed over C-ordered, Fortran-ordered, transposed or as strided views; uc.model, .model(), dump("system_model"), JSON or XML text with any indent, returned / to path / to stream); '
-            'restart (new working-unit epoch: seeded, unseeded through the owned random seam, named subset, SI, atomman default; all '
+            'a Box is read back by constructor, into a fresh Box or into a Box that already served another cell, and must then '
+            'behave as the cell it reports; restart (new working-unit epoch: seeded, unseeded through the owned random seam, named subset, SI, atomman default; all '
             'live objects dropped); read an artifact back (DataModelDict, JSON text, XML text, path, BytesIO, raw stream with short '
             'reads, buffered stream) and compare with the physical truth; rewrite (read then write again under the current epoch: '
             'chains of restarts). Systems: tilted or rotated cells, non-zero origin, 1-30 atoms, 1-4 types, symbols with gaps, '
@@ -178,7 +179,7 @@ class ModelEngine(Engine):
         if cfg['fault_free'] and src in ('chunked', 'buffered'):
             src = 'bytesio'
         op = {'op': k, 'a': r.randrange(len(st['arts'])), 'src': src, 'chunks': [r.choice([1, 2, 3, 7, 16, 64, 1000]) for _ in range(4)],
-              'bufsize': r.choice([1, 8, 16, 4096]), 'via': r.choice(['ctor', 'method', 'load'])}
+              'bufsize': r.choice([1, 8, 16, 4096]), 'via': r.choice(['ctor', 'method', 'load']), 'recycled': r.random() < 0.5}
         if k == 'rewrite':
             op['enc'] = r.choice(['json', 'xml'])
             op['indent'] = r.choice([None, 1, 4])
@@ -588,11 +589,26 @@ class ModelEngine(Engine):
                     obj['error'] = np.asarray(ctx.must('C10.J2', uc.error_unit, q, klass='error_unit/' + klass))
             elif what == 'box':
                 if op['via'] == 'method':
-                    b = am.Box()
+                    if op.get('recycled'):
+                        # the caller re-uses a Box that has already served another cell
+                        b = am.Box(vects=np.diag([2.0, 3.0, 4.0]), origin=[1.0, 1.0, 1.0])
+                        b.position_cartesian_to_relative([0.1, 0.2, 0.3])
+                        ctx.probe('box_read_into_used_object')
+                    else:
+                        b = am.Box()
                     ctx.must('C10.J3', b.model, src_obj, klass='Box.model(read)/' + klass)
                 else:
                     b = ctx.must('C10.J3', am.Box, model=src_obj, klass='Box(model)/' + klass)
                 obj = {'vects': b.vects, 'origin': b.origin, '_obj': b}
+                # the object that came back must BE that cell, not only report its vectors
+                rel0 = np.array([0.3, 0.6, 0.2])
+                P = rel0 @ b.vects + b.origin
+                back = np.asarray(ctx.must('C10.J3', b.position_cartesian_to_relative, P, klass='Box(read).cart2rel'))
+                if not np.allclose(back, rel0, rtol=0, atol=1e-9):
+                    raise Violation('C10.J3', {'what': 'the Box read back does not behave as the cell it reports '
+                                                        '(cartesian->relative of a point built from its own vects/origin)',
+                                               'got': back, 'want': rel0, 'via': op['via'], 'recycled': bool(op.get('recycled'))},
+                                    klass='box/behaviour/' + ('recycled' if op.get('recycled') else 'fresh'))
             elif what == 'atoms':
                 a = ctx.must('C10.J1', am.Atoms, model=src_obj, klass='Atoms(model)/' + klass)
                 obj = {'_obj': a, 'natoms': a.natoms}
